@@ -1212,3 +1212,46 @@ def self_test():  # noqa: F811
     ok['stale_compartment_handles'] = len(stale_compartment_handles(
         ast.parse(POSITIVE_EXAMPLES['stale_compartment_handles']).body[0])) == 1
     return ok
+
+
+# ---------------------------------------------------------------- traversal that gives up at the first visited node
+def visited_breaks(fnode):
+    """[(loop, break/return node, visited-set name)]: `for x in neighbours: if x in seen: break ... seen.add(x)`: meeting one
+    node that was already visited abandons the remaining neighbours (continue was meant) - nodes behind them are never reached"""
+    out = []
+    for L in [x for x in ast.walk(fnode) if isinstance(x, ast.For) and isinstance(x.target, ast.Name)]:
+        v = L.target.id
+        added = {c.func.value.id for c in ast.walk(L) if isinstance(c, ast.Call) and isinstance(c.func, ast.Attribute)
+                 and c.func.attr == 'add' and isinstance(c.func.value, ast.Name) and c.args
+                 and isinstance(c.args[0], ast.Name) and c.args[0].id == v}
+        if not added:
+            continue
+        for I in [s for s in L.body if isinstance(s, ast.If)]:
+            t = I.test
+            if isinstance(t, ast.Compare) and len(t.ops) == 1 and isinstance(t.ops[0], ast.In) and isinstance(t.left, ast.Name) \
+                    and t.left.id == v and isinstance(t.comparators[0], ast.Name) and t.comparators[0].id in added:
+                if I.body and isinstance(I.body[0], ast.Break):
+                    out.append((L, I.body[0], t.comparators[0].id))
+    return out
+
+
+POSITIVE_EXAMPLES['visited_breaks'] = """
+def reach(graph, start, targets):
+    seen, stack = {start}, [start]
+    while stack:
+        for dep in graph.get(stack.pop(), ()):
+            if dep in seen:
+                break
+            if dep in targets:
+                return True
+            seen.add(dep)
+            stack.append(dep)
+    return False
+"""
+_self_test_base_vb = self_test
+
+
+def self_test():  # noqa: F811
+    ok = _self_test_base_vb()
+    ok['visited_breaks'] = len(visited_breaks(ast.parse(POSITIVE_EXAMPLES['visited_breaks']).body[0])) == 1
+    return ok
